@@ -44,6 +44,23 @@ class MC:
         return "MC#%s<%s>%r" % (self.id, self.cls, self.items)
 
 
+class EmptyModel:
+    """Model of an empty-value placeholder: '' carrying a line number."""
+    __slots__ = ("lineno",)
+
+    def __init__(self, lineno):
+        self.lineno = lineno
+
+    def __eq__(self, other):
+        return isinstance(other, EmptyModel) and other.lineno == self.lineno
+
+    def __hash__(self):
+        return hash(("EmptyModel", self.lineno))
+
+    def __repr__(self):
+        return "Empty@%d" % self.lineno
+
+
 class PairRet(tuple):
     """A (key, value) pair returned by pop()/popitem() in the model."""
 
@@ -136,7 +153,12 @@ class Machine:
     """Executes a list of JSON-able operations on real containers and on
     the model, checking every observable after every operation."""
 
-    def __init__(self, check_level=2):
+    def __init__(self, check_level=2, check_period=1):
+        # check_period n: the full accessor comparison runs after every n-th
+        # operation only (and at the end); in between only iteration and
+        # len are compared.  Calling every accessor after every step would
+        # keep refreshing any state an accessor caches, and hide it.
+        self.check_period = max(1, check_period)
         self.reg = {}        # id -> (real, MC)
         self.by_real = {}    # id(real) -> id
         self.problems = []   # list[(cls, detail, op_index)]
@@ -197,6 +219,10 @@ class Machine:
             if "q" in spec:
                 r, m = self.build(spec["q"][0])
                 return Quantity(r, spec["q"][1]), ("Q", m, spec["q"][1])
+            if "empty" in spec:
+                from pvl.parser import EmptyValueAtLine
+                return (EmptyValueAtLine(spec["empty"]),
+                        EmptyModel(spec["empty"]))
         raise ValueError("bad value spec %r" % (spec,))
 
     # -- comparing a real value with a model value
@@ -205,6 +231,11 @@ class Machine:
             ent = self.reg.get(mv.id)
             return ent is not None and ent[0] is rv
         if isinstance(rv, OrderedMultiDict):
+            return False
+        if isinstance(mv, EmptyModel):
+            return (type(rv).__name__ == "EmptyValueAtLine" and rv == ""
+                    and getattr(rv, "lineno", None) == mv.lineno)
+        if type(rv).__name__ == "EmptyValueAtLine":
             return False
         if isinstance(mv, tuple) and len(mv) == 3 and mv[0] == "Q":
             return (type(rv) is Quantity and self.same(rv.value, mv[1])
@@ -242,6 +273,8 @@ class Machine:
             return frozenset(rv)
         if type(rv) is Quantity:
             return ("Q", self.model_of(rv.value), rv.units)
+        if type(rv).__name__ == "EmptyValueAtLine":
+            return EmptyModel(rv.lineno)
         return rv
 
     # -- all observables of one container against its model
@@ -508,7 +541,14 @@ class Machine:
                           (op, core.short(got[1])))
             self.resync(cid)
         if not self.problems:
-            self.check_all()
+            if (self.opi + 1) % self.check_period == 0:
+                self.check_all()
+            else:
+                saved, self.check_level = self.check_level, 0
+                try:
+                    self.check_all()
+                finally:
+                    self.check_level = saved
         return status
 
     def do_new(self, op):
@@ -812,11 +852,14 @@ def restart_roundtrip(data, proto):
     return json.loads(line)
 
 
-def run_ops(ops, check_level=2, machine_cls=Machine):
+def run_ops(ops, check_level=2, machine_cls=Machine, check_period=1):
     """Execute an explicit operation list; returns the machine."""
-    m = machine_cls(check_level)
+    m = machine_cls(check_level, check_period)
     for op in ops:
         m.apply(op)
         if m.problems:
             break
+    if not m.problems and check_period > 1:
+        m.opi += 0
+        m.check_all()           # full comparison at the end of the history
     return m
